@@ -178,6 +178,27 @@ def record_fields(module: ast.Module, name: str) -> T.Optional[T.List[str]]:
     return _RECORDS[key]
 
 
+def record_as_tuple(module: ast.Module, e: ast.AST) -> ast.AST:
+    """`Rec(a, b)` / `Rec(x=a, y=b)` of a module-level NamedTuple -> the tuple `(a, b)` in field order (a NamedTuple IS that
+    tuple); anything else is returned unchanged."""
+    if not (isinstance(e, ast.Call) and isinstance(e.func, ast.Name)):
+        return e
+    fields = record_fields(module, e.func.id)
+    is_nt = any(isinstance(st, ast.ClassDef) and st.name == e.func.id and any((attr_chain(b) or '').split('.')[-1] == 'NamedTuple' for b in st.bases)
+                for st in module.body) or any(isinstance(st, ast.Assign) and isinstance(st.value, ast.Call) and any(isinstance(t, ast.Name) and t.id == e.func.id for t in st.targets)
+                                              for st in module.body)
+    if fields is None or not is_nt or any(isinstance(a, ast.Starred) for a in e.args) or any(k.arg is None for k in e.keywords) or len(e.args) > len(fields):
+        return e
+    vals: T.Dict[str, ast.AST] = dict(zip(fields, e.args))
+    for k in e.keywords:
+        if k.arg not in fields or k.arg in vals:
+            return e
+        vals[k.arg] = k.value          # type: ignore[index]
+    if set(vals) != set(fields):
+        return e
+    return ast.copy_location(ast.Tuple(elts=[vals[f] for f in fields], ctx=ast.Load()), e)
+
+
 LITMATCH = '__literal_match__'      # marker for "the match object of a literal alternative": __literal_match__('>=')
 
 
@@ -269,6 +290,11 @@ class _FoldLen(ast.NodeTransformer):
         return n
 
     def visit_Call(self, n: ast.Call) -> ast.AST:
+        if isinstance(n.func, ast.IfExp):
+            # A3  a callable selected first: `(f if c else g)(x)`  ->  `f(x) if c else g(x)`
+            f = n.func
+            return self.visit(ast.copy_location(ast.IfExp(test=f.test, body=ast.Call(func=f.body, args=copy.deepcopy(n.args), keywords=copy.deepcopy(n.keywords)),
+                                                          orelse=ast.Call(func=f.orelse, args=copy.deepcopy(n.args), keywords=copy.deepcopy(n.keywords))), n))
         self.generic_visit(n)
         if isinstance(n.func, ast.Attribute) and _litmatch(n.func.value) is not None and not n.keywords \
                 and (not n.args or (len(n.args) == 1 and isinstance(n.args[0], ast.Constant) and n.args[0].value == 0)):
@@ -426,7 +452,7 @@ class Normaliser:
             for n in ast.walk(module):
                 if isinstance(n, (ast.FunctionDef, ast.AsyncFunctionDef)):
                     self.callees.setdefault(n.name, []).append(n)
-        self.pure = set(INLINE_CALLS) | set(calls) | {LITMATCH}
+        self.pure = set(INLINE_CALLS) | set(calls) | {LITMATCH, 'min', 'max'}
         self.nomut = self.pure | NOMUT_CALLS
         self.budget = budget
         self.dropped: T.Set[str] = set()
@@ -516,6 +542,18 @@ class Normaliser:
             rw = self.rewrite(s)
             if rw is not None:
                 return out + self.block(rw + list(stmts[i + 1:]), st)
+            if isinstance(s, ast.For) and isinstance(s.target, ast.Name) and not s.orelse:
+                # D1 with the bound hoisted into a local (`n = min(len(a), len(b)); for i in range(n)`): resolve it first
+                try:
+                    it2 = self.expr(s.iter, st.copy())
+                except Undecided:
+                    it2 = None
+                if it2 is not None and ast.dump(it2) != ast.dump(s.iter):
+                    probe = copy.copy(s)
+                    probe.iter = it2
+                    z = _index_loop_as_zip(probe)
+                    if z is not None:
+                        return out + self.block([z] + list(stmts[i + 1:]), st)
             if isinstance(s, ast.For):
                 unrolled = self.unroll(s, stmts[i + 1:], st)
                 if unrolled is not None:
@@ -596,6 +634,13 @@ class Normaliser:
                     and isinstance(h.body[0], ast.Assign) and len(h.body[0].targets) == 1 and ast.unparse(h.body[0].targets[0]) == b.targets[0].id:
                 return [loc(ast.Assign(targets=[b.targets[0]], value=ast.Call(func=ast.Attribute(value=b.value.value, attr='get', ctx=ast.Load()),
                                                                                 args=[b.value.slice, h.body[0].value], keywords=[])))]
+        # D3  `for T in map(f, xs): body`  ->  `for _x in xs: T = f(_x); body`
+        if isinstance(s, ast.For) and isinstance(s.iter, ast.Call) and isinstance(s.iter.func, ast.Name) and s.iter.func.id == 'map' \
+                and len(s.iter.args) == 2 and not s.iter.keywords and attr_chain(s.iter.args[0]) is not None and 'map' not in self.locals:
+            item = f'_item_{getattr(s, "lineno", 0)}'
+            call = ast.Call(func=s.iter.args[0], args=[ast.Name(id=item, ctx=ast.Load())], keywords=[])
+            return [loc(ast.For(target=ast.Name(id=item, ctx=ast.Store()), iter=s.iter.args[1],
+                                body=[loc(ast.Assign(targets=[s.target], value=call))] + list(s.body), orelse=s.orelse))]
         # D1  `for i in range(min(len(A), len(B))): .. A[i] .. B[i] ..`  ->  `for a, b in zip(A, B): .. a .. b ..`
         if isinstance(s, ast.For) and isinstance(s.target, ast.Name) and not s.orelse:
             z = _index_loop_as_zip(s)
